@@ -98,6 +98,10 @@ enum Act {
     DeliverAck(u8),
     DropAck(u8),
     DupAck(u8),
+    /// `Manager::reset()` on the receiving side (what the downloader does on a map change)
+    ResetReceiver,
+    /// `Storage::reset()` on the sending side
+    ResetSender,
 }
 
 struct PathNode {
@@ -131,6 +135,7 @@ struct St {
     drops: u8,
     dups: u8,
     acks_left: u8,
+    resets: u8,
     accepted: Vec<i32>,
     path: Option<Arc<PathNode>>,
     depth: u16,
@@ -144,7 +149,7 @@ impl Hash for St {
         self.acks.hash(h);
         self.sender_sig.hash(h);
         self.receiver_sig.hash(h);
-        (self.ticks_left, self.drops, self.dups, self.acks_left).hash(h);
+        (self.ticks_left, self.drops, self.dups, self.acks_left, self.resets).hash(h);
         self.accepted.hash(h);
         self.bad.hash(h);
     }
@@ -156,7 +161,7 @@ impl PartialEq for St {
             && self.acks == o.acks
             && self.sender_sig == o.sender_sig
             && self.receiver_sig == o.receiver_sig
-            && (self.ticks_left, self.drops, self.dups, self.acks_left) == (o.ticks_left, o.drops, o.dups, o.acks_left)
+            && (self.ticks_left, self.drops, self.dups, self.acks_left, self.resets) == (o.ticks_left, o.drops, o.dups, o.acks_left, o.resets)
             && self.accepted == o.accepted
             && self.bad == o.bad
     }
@@ -179,11 +184,13 @@ struct Cfg {
     /// a tick whose world equals the acknowledged base is announced with the data-less
     /// SnapEmpty message (what Teeworlds/DDNet servers do; `delta_chunks` emits it for empty data)
     send_empty: bool,
+    /// how many times either side may call its `reset()` in the middle of the history
+    resets: u8,
 }
 
 impl Cfg {
     fn label(&self) -> String {
-        format!("snapshots worlds{:?} ticks{} drops{} dups{} acks{} cap{}{}", self.worlds, self.ticks, self.drops, self.dups, self.acks, self.cap, if self.send_empty { " empty-when-unchanged" } else { "" })
+        format!("snapshots worlds{:?} ticks{} drops{} dups{} acks{} cap{}{}{}", self.worlds, self.ticks, self.drops, self.dups, self.acks, self.cap, if self.send_empty { " empty-when-unchanged" } else { "" }, if self.resets > 0 { format!(" resets{}", self.resets) } else { String::new() })
     }
 }
 
@@ -311,6 +318,25 @@ impl M {
                 s.acks.insert(pos, a);
                 None
             }
+            Act::ResetReceiver => {
+                s.resets -= 1;
+                let mut mg = (*s.receiver).clone();
+                mg.reset();
+                s.receiver = Arc::new(mg);
+                s.receiver_sig = hash_of(&(s.receiver_sig, 0xffu8));
+                // the receiver has forgotten everything: a copy of an earlier tick still in
+                // flight is a new snapshot to it
+                s.accepted.clear();
+                None
+            }
+            Act::ResetSender => {
+                s.resets -= 1;
+                let mut st = (*s.sender).clone();
+                st.reset();
+                s.sender = Arc::new(st);
+                s.sender_sig = hash_of(&(s.sender_sig, 3u8));
+                None
+            }
             Act::DeliverAck(i) => {
                 let a = s.acks.remove(i as usize);
                 let mut st = (*s.sender).clone();
@@ -415,6 +441,7 @@ impl Model for M {
             drops: self.cfg.drops,
             dups: self.cfg.dups,
             acks_left: self.cfg.acks,
+            resets: self.cfg.resets,
             accepted: vec![],
             path: None,
             depth: 0,
@@ -448,6 +475,10 @@ impl Model for M {
         }
         if s.acks_left > 0 && s.acks.len() < 3 {
             out.push(Act::AckEmit);
+        }
+        if s.resets > 0 && !s.sent.is_empty() {
+            out.push(Act::ResetReceiver);
+            out.push(Act::ResetSender);
         }
         for i in 0..s.acks.len() {
             if i > 0 && s.acks[i] == s.acks[i - 1] {
@@ -486,24 +517,33 @@ fn main() {
     let run = Run::new("C13", "model_checking");
     let cfgs = match run.tier {
         Tier::Quick => vec![
-            Cfg { worlds: vec![1, 2, 4], ticks: 3, drops: 1, dups: 0, acks: 2, cap: 4, send_empty: false },
-            Cfg { worlds: vec![1, 4], ticks: 2, drops: 1, dups: 1, acks: 2, cap: 4, send_empty: false },
-            Cfg { worlds: vec![0, 2, 3, 5], ticks: 3, drops: 1, dups: 0, acks: 2, cap: 4, send_empty: false },
-            Cfg { worlds: vec![6, 7, 8], ticks: 3, drops: 0, dups: 1, acks: 2, cap: 4, send_empty: false },
-            Cfg { worlds: vec![9, 10, 11], ticks: 3, drops: 1, dups: 0, acks: 2, cap: 4, send_empty: false },
-            Cfg { worlds: vec![1, 2, 0], ticks: 3, drops: 1, dups: 0, acks: 2, cap: 4, send_empty: true },
-            Cfg { worlds: vec![1, 2], ticks: 4, drops: 0, dups: 0, acks: 3, cap: 4, send_empty: true },
+            Cfg { worlds: vec![1, 2, 4], ticks: 3, drops: 1, dups: 0, acks: 2, cap: 4, send_empty: false, resets: 0 },
+            Cfg { worlds: vec![1, 4], ticks: 2, drops: 1, dups: 1, acks: 2, cap: 4, send_empty: false, resets: 0 },
+            Cfg { worlds: vec![0, 2, 3, 5], ticks: 3, drops: 1, dups: 0, acks: 2, cap: 4, send_empty: false, resets: 0 },
+            Cfg { worlds: vec![6, 7, 8], ticks: 3, drops: 0, dups: 1, acks: 2, cap: 4, send_empty: false, resets: 0 },
+            Cfg { worlds: vec![9, 10, 11], ticks: 3, drops: 1, dups: 0, acks: 2, cap: 4, send_empty: false, resets: 0 },
+            Cfg { worlds: vec![1, 2, 0], ticks: 3, drops: 1, dups: 0, acks: 2, cap: 4, send_empty: true, resets: 0 },
+            Cfg { worlds: vec![1, 2], ticks: 4, drops: 0, dups: 0, acks: 3, cap: 4, send_empty: true, resets: 0 },
+            // either side resets in the middle of the history
+            Cfg { worlds: vec![6, 7, 8], ticks: 3, drops: 0, dups: 0, acks: 2, cap: 4, send_empty: false, resets: 1 },
+            Cfg { worlds: vec![1, 4], ticks: 2, drops: 1, dups: 0, acks: 2, cap: 4, send_empty: false, resets: 1 },
+            Cfg { worlds: vec![1, 6], ticks: 3, drops: 0, dups: 0, acks: 2, cap: 4, send_empty: true, resets: 1 },
+            Cfg { worlds: vec![6, 7], ticks: 2, drops: 0, dups: 1, acks: 2, cap: 4, send_empty: false, resets: 2 },
         ],
         Tier::Thorough => vec![
             // sized on this machine (depth-first): 287 M, 17 M, 298 M, 49 M, 6 M, 6 M states
-            Cfg { worlds: vec![0, 1, 2, 4], ticks: 4, drops: 2, dups: 0, acks: 3, cap: 4, send_empty: false },
-            Cfg { worlds: vec![1, 2, 3, 5], ticks: 4, drops: 1, dups: 0, acks: 3, cap: 4, send_empty: false },
-            Cfg { worlds: vec![1, 4], ticks: 4, drops: 1, dups: 1, acks: 2, cap: 4, send_empty: false },
-            Cfg { worlds: vec![6, 7, 8], ticks: 4, drops: 0, dups: 1, acks: 3, cap: 4, send_empty: false },
-            Cfg { worlds: vec![1, 6, 7], ticks: 4, drops: 1, dups: 0, acks: 3, cap: 4, send_empty: false },
-            Cfg { worlds: vec![9, 10, 11], ticks: 4, drops: 1, dups: 0, acks: 3, cap: 4, send_empty: false },
-            Cfg { worlds: vec![1, 2, 0], ticks: 4, drops: 1, dups: 0, acks: 3, cap: 4, send_empty: true },
-            Cfg { worlds: vec![1, 2, 0], ticks: 4, drops: 0, dups: 1, acks: 3, cap: 4, send_empty: true },
+            Cfg { worlds: vec![0, 1, 2, 4], ticks: 4, drops: 2, dups: 0, acks: 3, cap: 4, send_empty: false, resets: 0 },
+            Cfg { worlds: vec![1, 2, 3, 5], ticks: 4, drops: 1, dups: 0, acks: 3, cap: 4, send_empty: false, resets: 0 },
+            Cfg { worlds: vec![1, 4], ticks: 4, drops: 1, dups: 1, acks: 2, cap: 4, send_empty: false, resets: 0 },
+            Cfg { worlds: vec![6, 7, 8], ticks: 4, drops: 0, dups: 1, acks: 3, cap: 4, send_empty: false, resets: 0 },
+            Cfg { worlds: vec![1, 6, 7], ticks: 4, drops: 1, dups: 0, acks: 3, cap: 4, send_empty: false, resets: 0 },
+            Cfg { worlds: vec![9, 10, 11], ticks: 4, drops: 1, dups: 0, acks: 3, cap: 4, send_empty: false, resets: 0 },
+            Cfg { worlds: vec![1, 2, 0], ticks: 4, drops: 1, dups: 0, acks: 3, cap: 4, send_empty: true, resets: 0 },
+            Cfg { worlds: vec![1, 2, 0], ticks: 4, drops: 0, dups: 1, acks: 3, cap: 4, send_empty: true, resets: 0 },
+            // either side resets in the middle of the history (4.2 M, 4.7 M, 0.2 M states)
+            Cfg { worlds: vec![1, 2, 4], ticks: 3, drops: 1, dups: 0, acks: 2, cap: 4, send_empty: false, resets: 1 },
+            Cfg { worlds: vec![1, 6], ticks: 3, drops: 0, dups: 1, acks: 2, cap: 4, send_empty: true, resets: 2 },
+            Cfg { worlds: vec![6, 7, 8], ticks: 3, drops: 0, dups: 0, acks: 2, cap: 4, send_empty: false, resets: 1 },
         ],
     };
     // sizing experiments: VERIF_C13_CFG="0,1,2,4;4;1;1;2;4;0" = worlds;ticks;drops;dups;acks;cap;send_empty
@@ -511,7 +551,7 @@ fn main() {
         Ok(v) => {
             let f: Vec<&str> = v.split(';').collect();
             let n = |i: usize| f[i].parse::<u8>().expect("number");
-            vec![Cfg { worlds: f[0].split(',').map(|x| x.parse().expect("world")).collect(), ticks: n(1), drops: n(2), dups: n(3), acks: n(4), cap: n(5) as usize, send_empty: n(6) != 0 }]
+            vec![Cfg { worlds: f[0].split(',').map(|x| x.parse().expect("world")).collect(), ticks: n(1), drops: n(2), dups: n(3), acks: n(4), cap: n(5) as usize, send_empty: n(6) != 0, resets: f.get(7).map(|x| x.parse().expect("resets")).unwrap_or(0) }]
         }
         Err(_) => cfgs,
     };
@@ -584,7 +624,7 @@ fn main() {
     // never, every `k`-th tick, or only once after `k` ticks.
     if run.num_violations() == 0 {
         let mut long_total = 0u64;
-        let cfg = Cfg { worlds: vec![1, 2, 6, 7, 8], ticks: 255, drops: 0, dups: 0, acks: 255, cap: 8, send_empty: false };
+        let cfg = Cfg { worlds: vec![1, 2, 6, 7, 8], ticks: 255, drops: 0, dups: 0, acks: 255, cap: 8, send_empty: false, resets: 0 };
         let label = cfg.label();
         let m = M { cfg, run: run.clone(), worlds: worlds(), stats: Arc::new(Stats::default()), samples: Arc::new(Mutex::new(Vec::new())) };
         let lens: &[usize] = if run.tier == Tier::Thorough { &[99, 100, 101, 102, 103, 130, 201, 205, 250] } else { &[101, 103, 205] };
@@ -644,9 +684,9 @@ fn main() {
     run.set("samples", json!(samples_json));
     run.add_evals(total_trans);
     run.assume("the state key of the real Storage/Manager objects is the hash of the complete history of operations applied to each (they are deterministic functions of it); states are therefore merged only when both objects have identical histories and the channels/budgets agree - an over-fine key, which costs states but cannot hide any");
-    run.assume("the sender follows the storage API exactly as server/src/main.rs does (new_builder, add, finish, add_snap, Delta::write, delta_chunks); the receiver acknowledges ack_tick() or -1; in the empty-when-unchanged configurations a delta without deletions and updates is announced with the data-less SnapEmpty message");
+    run.assume("the sender follows the storage API exactly as server/src/main.rs does (new_builder, add, finish, add_snap, Delta::write, delta_chunks); the receiver acknowledges ack_tick() or -1; in the reset configurations either side may call its reset() (Storage::reset on the sender, Manager::reset on the receiver - what the downloader does on a map change) at any point after the first snapshot; in the empty-when-unchanged configurations a delta without deletions and updates is announced with the data-less SnapEmpty message");
     run.finish(
-        "explicit-state exploration (stateright, breadth-first at the quick tier, depth-first at the thorough tier) of a real sender Storage and a real receiver Manager joined by lossy/duplicating/reordering channels for snapshot messages and acknowledgements; worlds include ordinal items, two UUID types of different sizes a 300-word item that forces a multi-part transfer, three different worlds with equal checksums, and three worlds whose ids, type ids and values sit on both sides of every length boundary of the variable-length integer code; whenever the receiver accepts a tick its snapshot equals the sender's through items() and item(type,id); on error the acknowledged tick does not move to that tick; nothing panics; plus linear histories of 101..250 snapshots delivered in order with acknowledgements never / regularly / once (the stores on both sides hold 100 snapshots)",
+        "explicit-state exploration (stateright, breadth-first at the quick tier, depth-first at the thorough tier) of a real sender Storage and a real receiver Manager joined by lossy/duplicating/reordering channels for snapshot messages and acknowledgements; worlds include ordinal items, two UUID types of different sizes a 300-word item that forces a multi-part transfer, three different worlds with equal checksums, and three worlds whose ids, type ids and values sit on both sides of every length boundary of the variable-length integer code; whenever the receiver accepts a tick its snapshot equals the sender's through items() and item(type,id); on error the acknowledged tick does not move to that tick; nothing panics; configurations in which either side calls reset() in the middle of the history; plus linear histories of 101..250 snapshots delivered in order with acknowledgements never / regularly / once (the stores on both sides hold 100 snapshots)",
         true,
     );
 }
